@@ -59,7 +59,7 @@ func DefaultHandleRecovery(c Context, _ any) {
 
 func recovery(logger *slog.Logger, c Context, handle RecoveryFunc) {
 	if err := recover(); err != nil {
-		if e, ok := err.(error); ok && errors.Is(e, http.ErrAbortHandler) {
+		if e, ok := err.(error); ok && noPanic(func() bool { return errors.Is(e, http.ErrAbortHandler) }) {
 			panic(e)
 		}
 
@@ -100,7 +100,7 @@ func recovery(logger *slog.Logger, c Context, handle RecoveryFunc) {
 
 		var errAttr slog.Attr
 		if e, ok := err.(error); ok {
-			errAttr = slog.String("error", e.Error())
+			errAttr = slog.String("error", errorString(e))
 		} else {
 			errAttr = slog.Any("error", err)
 		}
@@ -117,10 +117,32 @@ func recovery(logger *slog.Logger, c Context, handle RecoveryFunc) {
 			errAttr,
 		)
 
-		if !c.Writer().Written() && !connIsBroken(err) {
+		if !c.Writer().Written() && !noPanic(func() bool { return connIsBroken(err) }) {
 			handle(c, err)
 		}
 	}
+}
+
+// noPanic evaluates f and reports false when f panics: the methods of a recovered panic value (Error, Unwrap, Is)
+// may panic themselves, e.g. on a nil pointer receiver.
+func noPanic(f func() bool) (ok bool) {
+	defer func() {
+		if r := recover(); r != nil {
+			ok = false
+		}
+	}()
+	return f()
+}
+
+// errorString returns e.Error(), or a placeholder when the Error method itself panics (e.g. a nil pointer
+// receiver), so that the recovery of a panic never panics in turn.
+func errorString(e error) (s string) {
+	defer func() {
+		if r := recover(); r != nil {
+			s = fmt.Sprintf("%T(PANIC=Error method: %v)", e, r)
+		}
+	}()
+	return e.Error()
 }
 
 func connIsBroken(err any) bool {
